@@ -270,13 +270,17 @@ func init() {
 		return (*p).(Struct)[0]
 	})
 	in("(*time.Timer).Stop", func(st *State, c *frame, fn *ssa.Function, a []Value) Value {
-		st.schedPoint("timer stop")
 		tm := st.timerOf(a[0].(*Value))
+		if tm.armed {
+			st.schedPoint("timer stop")
+		}
 		return BoolC(st.stopTimer(tm))
 	})
 	in("(*time.Timer).Reset", func(st *State, c *frame, fn *ssa.Function, a []Value) Value {
-		st.schedPoint("timer reset")
 		tm := st.timerOf(a[0].(*Value))
+		if tm.armed {
+			st.schedPoint("timer reset")
+		}
 		was := st.stopTimer(tm)
 		st.armTimer(tm, st.concInt(a[1].(*Term), "timer"))
 		return BoolC(was)
